@@ -187,6 +187,8 @@ func main() {
 		fmt.Fprintf(os.Stderr, "unknown group %s (have %v)\n", os.Args[1], names)
 		os.Exit(2)
 	}
+	os.Unsetenv("TMUX")
+	os.Unsetenv("TMUX_PANE")
 	seed, _ := strconv.ParseInt(os.Args[2], 10, 64)
 	f, err := os.Create(os.Args[4])
 	if err != nil {
